@@ -386,15 +386,17 @@ Definition fb_post (sc : list N) (e : senv) (E : env) (stL : state) (b : block)
            (r : SyltSem.res sval) (st' : sstate) : Prop :=
   match r with
   | SyltSem.RVal v =>
-      exists E' sg stL' sc' e',
+      exists fl' W' E' sg stL' sc' e',
         ExecS E b stL (ROk (E', sg) stL') /\
         ((sg = SigNormal /\ v = SV Values.VLuaNil) \/ (exists lv, sg = SigReturn [lv] /\ vrel v lv)) /\
-        rel pv sv bound u fl W sc' e' st' E' stL' /\ sext sc e e' /\ incl sc sc' /\ keep sc E E' /\
+        rel pv sv bound u fl' W' sc' e' st' E' stL' /\ wsub W W' /\ sext sc e e' /\ incl sc sc' /\ keep sc E E' /\
         (s_ncell stL <= s_ncell stL')%positive
   | SyltSem.RStop o => exists ev stL', ExecS E b stL (RErr ev stL') /\ SyltSem.trace st' = s_out stL'
   | SyltSem.RAbrupt (SyltSem.CReturn v) =>
-      exists E' stL' lv, ExecS E b stL (ROk (E', SigReturn [lv]) stL') /\ vrel v lv /\
-                         rel pv sv bound u fl W sc e st' E stL' /\ (s_ncell stL <= s_ncell stL')%positive
+      exists fl' W' sc' e' E' Er stL' lv,
+        ExecS E b stL (ROk (Er, SigReturn [lv]) stL') /\ vrel v lv /\
+        rel pv sv bound u fl' W' sc' e' st' E' stL' /\ wsub W W' /\ sext sc e e' /\ incl sc sc' /\ keep sc E E' /\
+        (s_ncell stL <= s_ncell stL')%positive
   | SyltSem.RAbrupt _ => True
   end.
 
@@ -403,14 +405,34 @@ Lemma fb_of_exit {A} ctx sc e c c' E stL b v st' :
   exit_post ctx sc e c c' E stL b (@SyltSem.RAbrupt A (SyltSem.CReturn v)) st' ->
   fb_post sc e E stL b (SyltSem.RAbrupt (SyltSem.CReturn v)) st'.
 Proof.
-  intros (rl & Hx & (E' & stL' & lv & -> & Hv & Hr & Hn & _)). exists E', stL', lv. auto.
+  intros (rl & Hx & (E' & stL' & lv & -> & Hv & Hr & Hn & _)). exists fl, W, sc, e, E, E', stL', lv.
+  split; [exact Hx|]. split; [exact Hv|]. split; [exact Hr|]. split; [apply wsub_refl|].
+  split; [intros v0 _; reflexivity|]. split; [apply incl_refl|]. split; [apply keep_refl | exact Hn].
 Qed.
 
+(* the statements of a function body before its last one: local functions join the world on the way *)
+Definition body_post (sc sc' : list N) (flr : list (N * nat)) (e : senv) (l' : alut) (c' cend : N) (E : env) (stL : state) (b : block)
+           (r : SyltSem.res senv) (st' : sstate) : Prop :=
+  match r with
+  | SyltSem.RVal e' =>
+      exists W' E' stL' F',
+        ExecS E b stL (ROk (E', SigNormal) stL') /\ rel pv sv bound u flr W' sc' e' st' E' stL' /\ wsub W W' /\
+        ctx_ok l' F' E' c' cend /\ sext sc e e' /\ incl sc sc' /\ keep sc E E' /\ (s_ncell stL <= s_ncell stL')%positive
+  | _ => fb_post sc e E stL b (match r with SyltSem.RVal _ => SyltSem.RVal (SV Values.VLuaNil) | SyltSem.RStop o => SyltSem.RStop o | SyltSem.RAbrupt a => SyltSem.RAbrupt a end) st'
+  end.
+
+Definition P_body (n : nat) : Prop :=
+  forall g k ss ctx c cs c' cend e st r st' sc sc' flr l E stL F,
+    SyltSem.exec_block n e ss st = (r, st') -> mapM (fun s => statement g s ctx) ss c = Ok (cs, c') ->
+    frag_body pv sv bound k fl sc ss = Some (sc', flr) -> ucovers u (concat cs) -> c' <= cend -> ctx_ok l F E c cend ->
+    rel pv sv bound u fl W sc e st E stL -> interesting r ->
+    exists b l', cshape l (concat cs) b l' c c' /\ body_post sc sc' flr e l' c' cend E stL b r st'.
+
 Definition P_fb (n : nat) : Prop :=
-  forall g k body ctx c code c' e st r st' sc sc' l E stL F,
+  forall g k body ctx c code c' e st r st' sc scout l E stL F,
     SyltSem.block_value n e body st = (r, st') ->
     lower_fbody (statement g) (expression g) body ctx c = Ok (code, c') ->
-    frag_stmts pv sv bound fl k sc body = Some sc' -> ucovers u code -> ctx_ok l F E c c' ->
+    frag_body pv sv bound k fl sc body = Some scout -> ucovers u code -> ctx_ok l F E c c' ->
     rel pv sv bound u fl W sc e st E stL -> interesting r ->
     exists b l', cshape l code b l' c c' /\ fb_post sc e E stL b r st'.
 
